@@ -281,6 +281,22 @@ func (fr *Frame) callSiteClauses(st *State, in ssa.Instruction, recv *Val, args 
 		if a.Kind == "assume_after" {
 			continue // applied by callSiteAfter
 		}
+		if a.Kind == "cover" {
+			t, err := env.evalClause(a.E)
+			if err != nil {
+				c.errorf("%s: cover at %s: %v", fr.fn.Name(), ord, err)
+				continue
+			}
+			if c.dry == 0 {
+				cs := st.clone()
+				cs.pc = And(st.pc, t)
+				cv := c.oblige(fr, cs, "cover", fmt.Sprintf("cover#%d@call:%s", i+1, ord), False, clauseTags(a, fr.contract), "this call is reachable with "+a.Text+" (completeness of the guards before it)", false)
+				if cv != nil {
+					cv.ExpectSat = true
+				}
+			}
+			continue
+		}
 		if a.Kind == "assume" {
 			t, err := env.evalClause(a.E)
 			if err != nil {
